@@ -226,16 +226,18 @@ def op_getitem(c, o):
     pos = [int(idx[1])] if k == "int" else [int(i) for i in idx[1]] if k == "list" else []
     if idt != "i8" and not all(np.iinfo(RAW_NP[idt]).min <= p <= np.iinfo(RAW_NP[idt]).max for p in pos):
         idt = "i8"
+    sp = o.get("spelling", "plain")                 # x[i] | x[(i,)] | x[..., i]: the same index
+    W = (lambda i: (i,)) if sp == "tuple" else (lambda i: (Ellipsis, i)) if sp == "ellipsis" else (lambda i: i)
     if k == "int":
-        res = r[int(idx[1])] if not o.get("npint") else r[RAW_NP[idt](idx[1])]
+        res = r[W(int(idx[1]))] if not o.get("npint") else r[W(RAW_NP[idt](idx[1]))]
     elif k == "list":
-        res = r[[int(i) for i in idx[1]]] if o.get("listkind", "list") == "list" else r[np.array(idx[1], dtype=RAW_NP[idt])]
+        res = r[W([int(i) for i in idx[1]])] if o.get("listkind", "list") == "list" else r[W(np.array(idx[1], dtype=RAW_NP[idt]))]
     elif k == "mask":
-        res = r[np.array(idx[1], dtype=bool)]
+        res = r[W(np.array(idx[1], dtype=bool))]
     elif k == "rlmask":
-        res = r[mk_rl("b1", idx[1], o.get("maskvia", "from_array"))]
+        res = r[W(mk_rl("b1", idx[1], o.get("maskvia", "from_array")))]
     elif k == "slice":
-        res = r[py_sel(idx)]
+        res = r[W(py_sel(idx))]
     elif k == "windows":
         res = r[np.array(idx[1], dtype=int):np.array(idx[2], dtype=int)]
     elif k == "all":
